@@ -23,14 +23,14 @@ fn alphabet(profile: usize) -> Vec<&'static str> {
         0 => vec!["a", "b"],
         1 => vec!["a", "b", "c"],
         2 => vec!["a", "b", "1", "2", "x", "y", "3"],
-        3 => vec!["a", "1", " ", "_", "-", "\t", "Z", "9", "."],
+        3 => vec!["a", "1", " ", "_", "-", "\t", "Z", "9", ".", ","],
         4 => vec!["A", "a", "Ä", "ä", "İ", "ß", "Σ", "σ", "ς", "B", "b", "ǅ"],
         5 => vec!["a", "b", "x", "y"],
         6 => vec!["a", "\u{301}", "\\", "n", "é", "e", "\u{0}", "\u{200d}", "\u{b}"],
         7 => vec!["💩", "ü", "a", "♥", "𝔸", "€", "#", " "],
         _ => vec![
             "a", "b", "c", "1", "2", " ", "_", "A", "Ä", "ä", "x", "y", "\\", "\u{301}", "💩", "ü", ".", "*", "(", "|",
-            "#", "\n",
+            "#", "\n", ",", ";", "=",
         ],
     }
 }
